@@ -116,6 +116,7 @@ class WorldAdapter:
         env.killer = None
         env.remover = None
         env.probe_killer = None
+        env.reentrant = None
         env.w = desper.World()
         self.counter += 1
         self.mode = self.modes[self.counter % len(self.modes)]
@@ -129,10 +130,19 @@ class WorldAdapter:
                 if controllers and cb == 'on_add':
                     desper.Controller.on_add(self, entity, world)
                 if env.killer and env.killer[0] == self.name and cb == 'on_remove':
-                    victim = env.killer[1]
+                    victim, immediate = env.killer[1], env.killer[2]
                     env.killer = None
                     if world.get_components(victim):
-                        world.delete_entity(victim, immediate=True)
+                        world.delete_entity(victim, immediate=immediate)
+                if env.reentrant and env.reentrant[1] == self.name and cb == 'on_add':
+                    what = env.reentrant[0]
+                    env.reentrant = None
+                    env.log.append((cb, self.name, modelid(entity)) if world is env.w else (cb, self.name, modelid(entity), 'WRONGWORLD'))
+                    if what == 'selfremove':
+                        world.remove_component(entity, type(self))
+                    else:
+                        world.dispatch_enabled = False
+                    return
                 env.log.append((cb, self.name, modelid(entity)) if world is env.w else (cb, self.name, modelid(entity), 'WRONGWORLD'))
                 if env.fault == (cb, self.name):
                     env.fault = None
@@ -209,6 +219,7 @@ class WorldAdapter:
         env.killer = None
         env.remover = None
         env.probe_killer = None
+        env.reentrant = None
         kind = ['ok', 0, '-']
 
         def call():
@@ -245,8 +256,18 @@ class WorldAdapter:
                 env.remover = (args[1], args[2])
                 w.process(args[0])
             elif name == 'ProcessKiller':
-                env.killer = (args[1], pyid(args[2]))
+                env.killer = (args[1], pyid(args[2]), True)
                 w.process(args[0])
+            elif name == 'ProcessScheduler':
+                env.killer = (args[1], pyid(args[2]), False)
+                w.process(args[0])
+            elif name == 'AddSelfRemoving':
+                env.reentrant = ('selfremove', args[1])
+                w.add_component(pyid(args[0]), env.comps[args[1]])
+            elif name == 'CreateDisabling':
+                env.reentrant = ('disable', args[1])
+                r = w.create_entity(env.comps[args[1]], env.comps[args[2]], entity_id=pyid(args[0]))
+                kind[:] = ['id', modelid(r), '-']
             elif name == 'SetEnabledFault':
                 it = pre['queue'][args[0] - 1]
                 env.fault = (it[0], it[1])
